@@ -45,15 +45,25 @@ class AV:
 
 
 class Fl:
-    """abstract float: taint and, when known, a bound on the magnitude (|x| <= mag); `w` as for AV"""
-    __slots__ = ("t", "why", "mag", "w", "x")
+    """abstract float: taint and, when known, bounds lo <= x <= hi (given as a magnitude |x| <= mag or explicitly); `w`, `x`
+    as for AV"""
+    __slots__ = ("t", "why", "lo", "hi", "w", "x")
 
-    def __init__(self, t=False, why="", mag=None, w=False, x=None):
-        self.t, self.why, self.mag, self.w = (t and not w), why, mag, w
-        self.x = None if (w or mag is None) else x
+    def __init__(self, t=False, why="", mag=None, w=False, x=None, lo=None, hi=None):
+        self.t, self.why, self.w = (t and not w), why, w
+        if lo is None and hi is None and mag is not None:
+            lo, hi = -mag, mag
+        self.lo, self.hi = lo, hi
+        self.x = None if (w or lo is None or hi is None) else x
+
+    @property
+    def mag(self):
+        if self.lo is None or self.hi is None:
+            return None
+        return max(abs(self.lo), abs(self.hi))
 
     def key(self):
-        return ("f", self.t, self.mag, self.w, self.x)
+        return ("f", self.t, self.lo, self.hi, self.w, self.x)
 
 
 class Rec:
@@ -100,8 +110,10 @@ def join(a, b):
         return AV(min(a.lo, b.lo), max(a.hi, b.hi), a.t or b.t, a.why if a.t else b.why, a.w or b.w,
                   (a.x | b.x) if (a.x is not None and b.x is not None) else None)
     if isinstance(a, Fl) and isinstance(b, Fl):
-        return Fl(a.t or b.t, a.why if a.t else b.why, None if (a.mag is None or b.mag is None) else max(a.mag, b.mag),
-                  a.w or b.w, (a.x | b.x) if (a.x is not None and b.x is not None) else None)
+        bounded = None not in (a.lo, a.hi, b.lo, b.hi)
+        return Fl(a.t or b.t, a.why if a.t else b.why, None, a.w or b.w,
+                  (a.x | b.x) if (a.x is not None and b.x is not None) else None,
+                  lo=min(a.lo, b.lo) if bounded else None, hi=max(a.hi, b.hi) if bounded else None)
     if isinstance(a, Rec) and isinstance(b, Rec):
         out = {}
         for k in set(a.f) | set(b.f):
@@ -169,7 +181,7 @@ FIELD_INVARIANTS = {
 DATE_DUR, TIME_DUR, DUR = CORE + "duration::date::DateDuration", CORE + "duration::time::TimeDuration", CORE + "duration::Duration"
 _S = 2 ** 53            # maxTimeDuration in seconds
 FLOAT_INVARIANTS = {    # |field| bounds of a valid duration (is_valid_duration): calendar fields < 2^32, time total < 2^53 s
-    (DATE_DUR, "years"): 2 ** 32, (DATE_DUR, "months"): 2 ** 32, (DATE_DUR, "weeks"): 2 ** 32, (DATE_DUR, "days"): _S // 86400 + 1,
+    (DATE_DUR, "years"): 2 ** 32 - 1, (DATE_DUR, "months"): 2 ** 32 - 1, (DATE_DUR, "weeks"): 2 ** 32 - 1, (DATE_DUR, "days"): _S // 86400 + 1,
     (TIME_DUR, "hours"): _S // 3600 + 1, (TIME_DUR, "minutes"): _S // 60 + 1, (TIME_DUR, "seconds"): _S,
     (TIME_DUR, "milliseconds"): _S * 10 ** 3, (TIME_DUR, "microseconds"): _S * 10 ** 6, (TIME_DUR, "nanoseconds"): _S * 10 ** 9,
 }
@@ -591,7 +603,8 @@ class FnAnalysis:
                     return pv
             if isinstance(v, dict) and "f64" in v:
                 try:
-                    return Fl(False, "", abs(float(v["f64"])), False, frozenset())
+                    fv = float(v["f64"])
+                    return Fl(False, "", None, False, frozenset(), lo=fv, hi=fv)
                 except (TypeError, ValueError):
                     return Fl(False)
             return self.eng.top(self.sty(k.get("ty")))
@@ -874,6 +887,8 @@ class FnAnalysis:
         blk = self.blocks[bb]
         if blk["cleanup"]:
             return []
+        self.cur_bb = bb
+        self.cast_no = 0
         for st in blk["s"]:
             if st[0] != "=":
                 continue
@@ -922,6 +937,7 @@ class FnAnalysis:
         elif kind == "cast":
             ck, op, fty, tty = rv[1], rv[2], self.sty(rv[3]), self.sty(rv[4])
             v = self.operand(env, op)
+            self.note_narrowing(ck, v, fty, tty)
             if ck == "IntToInt":
                 r = ty_range(tty)
                 if isinstance(v, AV) and r and v.lo >= r[0] and v.hi <= r[1]:
@@ -938,16 +954,18 @@ class FnAnalysis:
                 if r:
                     m = getattr(v, "mag", None)
                     if m is not None:
-                        val = AV(max(r[0], -m), min(r[1], m), getattr(v, "t", False), getattr(v, "why", ""), getattr(v, "w", False),
-                                 getattr(v, "x", None))
+                        flo, fhi = (int(v.lo) if v.lo == int(v.lo) else int(v.lo) - (v.lo < 0)), (int(v.hi) if v.hi == int(v.hi) else int(v.hi) + (v.hi > 0))
+                        val = AV(min(max(r[0], flo), r[1]), max(min(r[1], fhi), r[0]), getattr(v, "t", False), getattr(v, "why", ""),
+                                 getattr(v, "w", False), getattr(v, "x", None))
                     else:
                         val = AV(r[0], r[1], getattr(v, "t", False), getattr(v, "why", ""), getattr(v, "w", False))
             elif ck == "IntToFloat":
-                m = max(abs(v.lo), abs(v.hi)) if isinstance(v, AV) else None
-                val = Fl(getattr(v, "t", False), getattr(v, "why", ""), m, getattr(v, "w", False), getattr(v, "x", None))
+                if isinstance(v, AV):
+                    val = Fl(v.t, v.why, None, v.w, v.x, lo=v.lo, hi=v.hi)
+                else:
+                    val = Fl(getattr(v, "t", False), getattr(v, "why", ""))
             elif ck == "FloatToFloat":
-                val = Fl(getattr(v, "t", False), getattr(v, "why", ""), getattr(v, "mag", None), getattr(v, "w", False),
-                         getattr(v, "x", None))
+                val = v if isinstance(v, Fl) else Fl(getattr(v, "t", False), getattr(v, "why", ""))
             else:
                 val = v if ck.startswith("PointerCoercion") or ck in ("PtrToPtr", "Transmute") else None
         elif kind == "bin":
@@ -960,17 +978,25 @@ class FnAnalysis:
                 val = Rec({0: raw, 1: AV(0, 1)})
             else:
                 if isinstance(a, Fl) or isinstance(b, Fl) or ty in ("f64", "f32"):
-                    ma, mb = getattr(a, "mag", None), getattr(b, "mag", None)
-                    mag = None
-                    if ma is not None and mb is not None:
-                        mag = {"Add": ma + mb, "Sub": ma + mb, "Mul": ma * mb}.get(op)
-                    if op == "Rem" and mb is not None:
-                        mag = mb
-                    val = Fl(getattr(a, "t", False) or getattr(b, "t", False),
-                             getattr(a, "why", "") if getattr(a, "t", False) else getattr(b, "why", ""), mag,
-                             getattr(a, "w", False) or getattr(b, "w", False),
-                             (a.x | b.x) if (op in ("Add", "Sub", "Mul") and getattr(a, "x", None) is not None
-                                             and getattr(b, "x", None) is not None and a.x.isdisjoint(b.x)) else None)
+                    fa = a if isinstance(a, Fl) else (Fl(a.t, a.why, None, a.w, a.x, lo=a.lo, hi=a.hi) if isinstance(a, AV) else Fl())
+                    fb = b if isinstance(b, Fl) else (Fl(b.t, b.why, None, b.w, b.x, lo=b.lo, hi=b.hi) if isinstance(b, AV) else Fl())
+                    lo = hi = None
+                    if None not in (fa.lo, fa.hi, fb.lo, fb.hi):
+                        if op == "Add":
+                            lo, hi = fa.lo + fb.lo, fa.hi + fb.hi
+                        elif op == "Sub":
+                            lo, hi = fa.lo - fb.hi, fa.hi - fb.lo
+                        elif op == "Mul":
+                            c = [fa.lo * fb.lo, fa.lo * fb.hi, fa.hi * fb.lo, fa.hi * fb.hi]
+                            lo, hi = min(c), max(c)
+                        elif op == "Div" and fb.lo == fb.hi and fb.lo != 0:
+                            c = [fa.lo / fb.lo, fa.hi / fb.lo]
+                            lo, hi = min(c), max(c)
+                    if op == "Rem" and fb.mag is not None:
+                        lo, hi = -fb.mag, fb.mag
+                    val = Fl(fa.t or fb.t, fa.why if fa.t else fb.why, None, fa.w or fb.w,
+                             (fa.x | fb.x) if (op in ("Add", "Sub", "Mul", "Div") and fa.x is not None and fb.x is not None
+                                               and fa.x.isdisjoint(fb.x)) else None, lo=lo, hi=hi)
                 else:
                     val = self.clamp_ty(self.arith(op, a, b, ty), ty)
         elif kind == "un":
@@ -978,7 +1004,7 @@ class FnAnalysis:
             if op == "Neg" and isinstance(a, AV):
                 val = self.clamp_ty(AV(-a.hi, -a.lo, a.t, a.why, a.w, a.x), ty)
             elif op == "Neg" and isinstance(a, Fl):
-                val = a
+                val = Fl(a.t, a.why, None, a.w, a.x, lo=None if a.hi is None else -a.hi, hi=None if a.lo is None else -a.lo)
             elif op == "Not":
                 p = M.op_place(rv[2])
                 if p is not None and ("p", M.place_local(p)) in env:
@@ -1041,6 +1067,33 @@ class FnAnalysis:
             env.pop(("discr", l), None)
             if self._pending_discr is not None and self._pending_discr[0][0] != l:
                 env[("discr", l)] = self._pending_discr
+
+    def note_narrowing(self, ck, v, fty, tty):
+        """a numeric cast that cannot represent every value of its caller-controlled, exactly known operand loses
+        information silently (float -> int saturates, int -> int wraps)"""
+        r = ty_range(tty)
+        if r is None or ck not in ("FloatToInt", "IntToInt"):
+            return
+        self.cast_no = getattr(self, "cast_no", 0) + 1
+        skey = ("narrowing", getattr(self, "cur_bb", 0) * 100 + self.cast_no)
+        if isinstance(v, AV):
+            lo, hi = v.lo, v.hi
+        elif isinstance(v, Fl) and v.mag is not None:
+            lo, hi = v.lo, v.hi
+        elif isinstance(v, Fl):
+            lo, hi = r[0] - 1, r[1] + 1
+        else:
+            return
+        if lo >= r[0] and hi <= r[1]:
+            self.site_results[skey] = (0, None)
+        elif getattr(v, "t", False) and getattr(v, "x", None) is not None:
+            what = "saturates" if ck == "FloatToInt" else "wraps"
+            self.site_results[skey] = (2, ("narrowing", "a caller-controlled %s value in %s is cast to %s, which %s outside [%s, %s]: the "
+                                          "result silently differs from the exact value; caller-controlled through %s" %
+                                          (fty, _fmt(AV(lo, hi)), tty, what, r[0], r[1], getattr(v, "why", "")),
+                                          None, "narrowing"))
+        else:
+            self.site_results[skey] = (1, None)
 
     def root(self, env, l):
         """resolved place of a local (for predicates): (root, path)"""
@@ -1222,6 +1275,13 @@ class FnAnalysis:
             outs.append((t["else"], dict(env)))
         return outs
 
+    def set_place_any(self, env, rp, val):
+        root, path = rp
+        self.set_path(env, root, path, val)
+        for k in [k for k in env if isinstance(k, tuple) and k[0] == "alias"]:
+            if env[k] == rp:
+                env[k[1]] = val
+
     def set_place(self, env, rp, av):
         """narrow the value stored at a resolved place and every temporary standing for it"""
         root, path = rp
@@ -1249,6 +1309,18 @@ class FnAnalysis:
                     nb.x = None
                 self.apply_refinement(env, lo_, na)
                 self.apply_refinement(env, ro_, nb)
+            return env
+        if kind == "fcontains":
+            lo, hi, xop = pred[1], pred[2], pred[3]
+            x = self.operand(env, xop)
+            if isinstance(x, Fl) and truth:
+                nlo = lo if x.lo is None else max(x.lo, lo)
+                nhi = hi if x.hi is None else min(x.hi, hi)
+                if nlo > nhi:
+                    return None
+                rp = xop.get("rp")
+                if rp is not None:
+                    self.set_place_any(env, rp, Fl(x.t, x.why, None, x.w, x.x if x.x is not None else None, lo=nlo, hi=nhi))
             return env
         if kind == "contains":
             lo, hi, incl, xop = pred[1], pred[2], pred[3], pred[4]
@@ -1324,6 +1396,12 @@ class FnAnalysis:
                         # the body is still analysed for its own sites
                         eng.call_fn(g, args, self.stack, {})
                         continue
+                cargs = args
+                if eng.fns[g].kind == "Closure" and name in ("call", "call_mut", "call_once") and len(args) == 2 \
+                        and isinstance(args[1], Rec):
+                    # Fn*::call(closure, (a, b, ..)): the closure body takes the arguments untupled
+                    n_in = eng.body(eng.fns[g]).argc - 1
+                    cargs = [args[0]] + [args[1].f.get(i) for i in range(n_in)]
                 names = eng.fns[g].d.get("generics") or []
                 sub = {}
                 if names and len(names) == len(gargs):
@@ -1333,7 +1411,9 @@ class FnAnalysis:
                 elif names and "impl_self" in eng.fns[g].d and gargs:
                     # impl method reached through a trait path: `Self` type is the first generic argument
                     pass
-                r = eng.call_fn(g, args, self.stack, sub)
+                if eng.fns[g].kind == "Closure":
+                    sub = dict(self.subst)
+                r = eng.call_fn(g, cargs, self.stack, sub)
                 val = r if first else (join(val, r) if (val is not None and r is not None) else None)
                 first = False
             if val is None:
@@ -1384,6 +1464,13 @@ class FnAnalysis:
                 xr = self.resolve_place(env, xp) if xp is not None else None
                 if xr is not None and xr[0] != dl:
                     e2[("p", dl)] = ("contains", rng.f["start"].lo, rng.f["end"].lo, bool(rng.f.get("incl")), {"rp": xr})
+            elif isinstance(rng, Rec) and isinstance(rng.f.get("start"), Fl) and isinstance(rng.f.get("end"), Fl) \
+                    and rng.f["start"].lo is not None and rng.f["start"].lo == rng.f["start"].hi \
+                    and rng.f["end"].lo is not None and rng.f["end"].lo == rng.f["end"].hi and rng.f.get("incl"):
+                xp = M.op_place(t["args"][1])
+                xr = self.resolve_place(env, xp) if xp is not None else None
+                if xr is not None and xr[0] != dl:
+                    e2[("p", dl)] = ("fcontains", rng.f["start"].lo, rng.f["end"].lo, {"rp": xr})
         if name in ("abs", "unsigned_abs") and t["args"]:
             xp = M.op_place(t["args"][0])
             xr = self.resolve_place(env, xp) if xp is not None else None
@@ -1498,13 +1585,13 @@ class FnAnalysis:
                     return AV(a0.lo, a0.hi, a0.t, a0.why, a0.w, a0.x)
                 return AV(r[0], r[1], a0.t, a0.why, a0.w, a0.x)
             if isinstance(a0, AV) and dty in ("f64", "f32"):
-                return Fl(a0.t, a0.why, max(abs(a0.lo), abs(a0.hi)), a0.w)
+                return Fl(a0.t, a0.why, None, a0.w, a0.x, lo=a0.lo, hi=a0.hi)
             if isinstance(a0, Fl) and dty in ("f64", "f32"):
                 return a0
             if isinstance(a0, Fl) and r:
                 if a0.mag is not None:
-                    return AV(max(r[0], -a0.mag), min(r[1], a0.mag), a0.t, a0.why, a0.w, a0.x)
-                return AV(r[0], r[1], a0.t, a0.why, a0.w, a0.x)
+                    return AV(min(max(r[0], int(a0.lo)), r[1]), max(min(r[1], int(a0.hi)), r[0]), a0.t, a0.why, a0.w, a0.x)
+                return AV(r[0], r[1], a0.t, a0.why, a0.w)
             if isinstance(a0, AV) and dty.startswith("core::result::Result<"):
                 inner = re.match(r"core::result::Result<([^,]+),", dty)
                 ir = ty_range(inner.group(1)) if inner else None
@@ -1519,10 +1606,17 @@ class FnAnalysis:
             lo = 0 if a0.lo <= 0 <= a0.hi else min(abs(a0.lo), abs(a0.hi))
             return self.clamp_ty(AV(lo, m, a0.t, a0.why, a0.w, a0.x), dty) if name == "abs" else AV(lo, m, a0.t, a0.why, a0.w, a0.x)
         if name in ("abs", "trunc", "floor", "ceil", "round", "copysign", "signum", "fract") and isinstance(a0, Fl):
-            if name in ("floor", "ceil", "round") and a0.mag is not None:
-                return Fl(a0.t, a0.why, a0.mag + 1, a0.w)
+            if a0.mag is None:
+                return Fl(a0.t, a0.why) if name != "signum" else Fl(a0.t, a0.why, 1)
+            if name == "abs":
+                lo = 0 if a0.lo <= 0 <= a0.hi else min(abs(a0.lo), abs(a0.hi))
+                return Fl(a0.t, a0.why, None, a0.w, a0.x, lo=lo, hi=a0.mag)
+            if name in ("floor", "ceil", "round"):
+                return Fl(a0.t, a0.why, None, a0.w, a0.x, lo=a0.lo - 1, hi=a0.hi + 1)
             if name in ("signum", "fract"):
-                return Fl(a0.t, a0.why, 1, a0.w)
+                return Fl(a0.t, a0.why, 1, a0.w, a0.x)
+            if name == "copysign":
+                return Fl(a0.t, a0.why, a0.mag, a0.w, None)
             return a0
         if name in ("mul_add",) and all(isinstance(x, Fl) for x in args[:3]) and len(args) == 3:
             ms = [x.mag for x in args]
@@ -1530,12 +1624,38 @@ class FnAnalysis:
         if name == "rem_euclid" and isinstance(a1, AV):
             m = max(abs(a1.lo), abs(a1.hi))
             if m > 0:
-                return AV(0, m - 1, getattr(a0, "t", False), getattr(a0, "why", ""))
+                return AV(0, m - 1, getattr(a0, "t", False), getattr(a0, "why", ""), getattr(a0, "w", False))
         if name == "div_euclid" and isinstance(a0, AV) and isinstance(a1, AV) and a1.lo > 0:
             return AV(-((-a0.lo) // a1.lo) - 1 if a0.lo < 0 else a0.lo // a1.hi, a0.hi // a1.lo if a0.hi >= 0 else -((-a0.hi) // a1.hi),
                       a0.t or a1.t, a0.why if a0.t else a1.why)
-        if name == "clamp" and len(args) == 3 and all(isinstance(x, AV) for x in args):
-            return AV(max(a0.lo, a1.lo), min(a0.hi, args[2].hi), False, "clamped")
+        if name == "clamp" and len(args) == 3 and all(isinstance(x, (AV, Fl)) for x in args) \
+                and None not in (getattr(a1, "lo", None), getattr(args[2], "hi", None)):
+            lo_b, hi_b = a1.lo, args[2].hi
+            v = a0
+            if getattr(v, "lo", None) is not None and getattr(v, "hi", None) is not None and not isinstance(v, Fl):
+                # integer clamps are the `constrain` semantics of the API (intended); only float saturation is tracked
+                nlo, nhi = max(v.lo, lo_b), min(v.hi, hi_b)
+                if nlo > nhi:
+                    nlo, nhi = lo_b, hi_b
+            elif getattr(v, "lo", None) is not None and getattr(v, "hi", None) is not None:
+                self.cast_no = getattr(self, "cast_no", 0) + 1
+                skey = ("narrowing", getattr(self, "cur_bb", 0) * 100 + 50 + self.cast_no)
+                if v.lo >= lo_b and v.hi <= hi_b:
+                    self.site_results[skey] = (0, None)
+                elif v.t and v.x is not None:
+                    self.site_results[skey] = (2, ("narrowing", "a caller-controlled value in %s is clamped to [%s, %s]: values outside are "
+                                                  "silently replaced by the bound; caller-controlled through %s" %
+                                                  (_fmt(AV(int(v.lo), int(v.hi))), _fmt_n(lo_b), _fmt_n(hi_b), v.why), None, "narrowing"))
+                else:
+                    self.site_results[skey] = (1, None)
+                nlo, nhi = max(v.lo, lo_b), min(v.hi, hi_b)
+                if nlo > nhi:
+                    nlo, nhi = lo_b, hi_b
+            else:
+                nlo, nhi = lo_b, hi_b
+            if isinstance(v, Fl):
+                return Fl(v.t, v.why, None, v.w, None, lo=nlo, hi=nhi)
+            return AV(int(nlo), int(nhi), v.t, v.why, v.w, None)
         if name in ("min",) and isinstance(a0, AV) and isinstance(a1, AV):
             return AV(min(a0.lo, a1.lo), min(a0.hi, a1.hi), a0.t and a1.t, a0.why)
         if name in ("max",) and isinstance(a0, AV) and isinstance(a1, AV):
@@ -1560,7 +1680,7 @@ class FnAnalysis:
                     out[("variant", "None")] = Rec({})
                 return Rec(out)
             if inner in ("f64", "f32") and isinstance(a0, AV):
-                return Rec({("variant", "Some"): Rec({0: Fl(a0.t, a0.why, max(abs(a0.lo), abs(a0.hi)))})})
+                return Rec({("variant", "Some"): Rec({0: Fl(a0.t, a0.why, None, a0.w, a0.x, lo=a0.lo, hi=a0.hi)})})
         if name in ("binary_search", "binary_search_by", "binary_search_by_key") and "slice" in path:
             # Ok(i): the key is element i (0 when it is the first one); Err(i): insertion point (0 when it precedes all).
             # Both ends are attained for suitable data / keys, which come from the provider's data and the caller's query.
@@ -1687,7 +1807,7 @@ class FnAnalysis:
                     return AV(max(r[0], -a0.mag), min(r[1], a0.mag), a0.t, a0.why, a0.w, a0.x)
                 return AV(r[0], r[1], a0.t, a0.why, a0.w, a0.x)
             if isinstance(a0, AV) and dty in ("f64", "f32"):
-                return Fl(a0.t, a0.why, max(abs(a0.lo), abs(a0.hi)), a0.w)
+                return Fl(a0.t, a0.why, None, a0.w, a0.x, lo=a0.lo, hi=a0.hi)
             return a0 if not (isinstance(a0, AV) and r and (a0.lo < r[0] or a0.hi > r[1])) else AV(r[0], r[1], a0.t, a0.why, a0.w, a0.x)
         if name in ("len",):
             return AV(0, (1 << 63) - 1)
@@ -1818,6 +1938,10 @@ def _refine_cmp(op, a, b):
     return a, b
 
 
+def _fmt_n(x):
+    return str(int(x)) if abs(x) < 10 ** 7 else "%.3g" % x
+
+
 def _fmt(v):
     if isinstance(v, AV):
         def s(x):
@@ -1841,3 +1965,40 @@ def analyse(fx, crates=("temporal_rs", "temporal_capi")):
     _ENG = eng
     eng.run()
     return eng
+
+
+def results(fx, crate="temporal_rs"):
+    """site table of the whole-crate sweep, cached next to the facts (keyed by this module's source): a list of dicts
+    {fn, file, fn_line, kind, ordinal, status (0 proved / 1 unresolved / 2 reported), text, line, chain} plus the statistics"""
+    import hashlib, json, os
+    here = os.path.abspath(__file__)
+    with open(here, "rb") as fh:
+        eh = hashlib.sha256(fh.read()).hexdigest()[:12]
+    cache = os.path.join(getattr(fx, "dir", "") or "", "r9-%s-%s.json" % (crate, eh))
+    if getattr(fx, "dir", None) and os.path.exists(cache):
+        try:
+            with open(cache) as fh:
+                return json.load(fh)
+        except Exception:
+            pass
+    eng = analyse(fx, (crate,))
+    per_fn = {}
+    for (p, k) in sorted(eng.site, key=lambda x: (x[0], x[1][0], x[1][1])):
+        per_fn.setdefault((p, k[0]), []).append(k[1])
+    sites = []
+    for (p, k), status in sorted(eng.site.items(), key=lambda x: (x[0][0], x[0][1][0], x[0][1][1])):
+        f = eng.fns[p]
+        a = eng.alarms.get((p, k))
+        sites.append({"fn": p, "file": f.file, "fn_line": f.line, "kind": k[0], "ordinal": per_fn[(p, k[0])].index(k[1]) + 1,
+                      "status": status, "text": a[1] if a else None, "line": a[2] if a else None,
+                      "chain": list(a[4]) if a else None})
+    out = {"stats": dict(eng.stats), "sites": sites}
+    if getattr(fx, "dir", None):
+        try:
+            tmp = cache + ".tmp%d" % os.getpid()
+            with open(tmp, "w") as fh:
+                json.dump(out, fh)
+            os.replace(tmp, cache)
+        except OSError:
+            pass
+    return out
